@@ -173,6 +173,48 @@ def gen_schema(rng, sc, sp, nd_new, nv_new, allow_unlim=True):
     return newv
 
 
+def emit_att(sc, sp, vid, n):
+    """new text attribute a<k> (k = running counter of the harness, reset by `create`) -> its name"""
+    name = 'a%d' % sp.natts
+    sp.natts += 1
+    sc.op('att %d %d' % (vid, n), 'ok')
+    return name
+
+
+def gen_copy_att(rng, sc, sp, nold):
+    """ncmpi_copy_att between the file under redefinition and a second (template) file that is in DATA mode"""
+    sizes = [rng.range(1, 8), rng.range(20, 90), rng.range(500, 3000), rng.range(1, 3)]
+    sc.op('tmake ' + ' '.join('t%d:%d' % (i, n) for i, n in enumerate(sizes)), 'ok')
+    mode = rng.below(2)
+    sc.op('topen %d' % mode, 'ok')
+    sc.kinds.add('copy_att-from-%s-template' % ('rw' if mode else 'readonly'))
+    for _ in range(rng.range(1, 3)):
+        i = rng.below(len(sizes))
+        srcv = rng.choice([-1, 0])
+        dstv = rng.choice([-1] + list(range(len(sp.vars)))) if sp.vars else -1
+        sc.op('copyatt 0 %d t%d %d' % (srcv, i, dstv), 'ok')
+        sc.kinds.add('copy_att-%s-%s' % ('global' if dstv < 0 else 'var', 'large' if sizes[i] >= 500 else 'small'))
+        sc.op('snap', 'snap', 'define-op:ncmpi_copy_att(template in data mode -> file in define mode, %d bytes)' % sizes[i])
+    sc.op('tclose', 'ok')
+    if rng.chance(1, 2):
+        # the other direction: source in define mode, target in data mode -> the target's header must be written at once
+        n = rng.range(1, 30)
+        name = 'a%d' % sp.natts
+        sc.op('tmake %s:40' % name, 'ok')
+        sc.op('topen 1', 'ok')
+        vid = rng.choice([-1] + list(range(len(sp.vars)))) if sp.vars else -1
+        emit_att(sc, sp, vid, n)
+        sc.op('tsnap', 'tsnap', 'rev-before')
+        sc.op('copyatt 1 %d %s %d' % (vid, name, -1 if vid < 0 else 0), 'ok')
+        sc.op('tsnap', 'tsnap', 'rev-after')
+        sc.op('snap', 'snap', 'define-op:ncmpi_copy_att(file in define mode -> template in data mode)')
+        sc.op('tclose', 'ok')
+        sc.op('topen 0', 'ok')
+        sc.op('tgetatt %d %s' % (-1 if vid < 0 else 0, name), 'tgetatt', n)
+        sc.op('tclose', 'ok')
+        sc.kinds.add('copy_att-into-data-mode-file')
+
+
 def gen_enddef(rng, sc):
     if rng.chance(1, 2):
         sc.op('enddef', 'ok')
@@ -246,7 +288,7 @@ def gen_scenario(rng, nprocs, idx, tier):
     sc.op('moveunit %d' % unit)
     sc.op('create %d' % fmt, 'ok')
     if rng.chance(1, 5):
-        sc.op('att -1 %d' % rng.range(1, 40), 'ok')
+        emit_att(sc, sp, -1, rng.range(1, 40))
     if rng.chance(1, 4):
         sc.op('setfill 1', 'setfill'); sp.setfill(1)
         sc.kinds.add('create-dataset-fill')
@@ -304,9 +346,11 @@ def gen_scenario(rng, nprocs, idx, tier):
         deltas = []
         if rng.chance(1, 2):
             n = rng.choice([rng.range(1, 20), rng.range(300, 2500)])
-            sc.op('att -1 %d' % n, 'ok'); deltas.append('att-small' if n <= 20 else 'att-large')
+            emit_att(sc, sp, -1, n); deltas.append('att-small' if n <= 20 else 'att-large')
         if rng.chance(1, 4) and sp.vars:
-            sc.op('att %d %d' % (rng.below(len(sp.vars)), rng.range(1, 600)), 'ok'); deltas.append('varatt')
+            emit_att(sc, sp, rng.below(len(sp.vars)), rng.range(1, 600)); deltas.append('varatt')
+        if rng.chance(2, 5):
+            gen_copy_att(rng, sc, sp, nold); deltas.append('copy_att')
         fillmode = rng.choice(['none', 'none', 'dataset-before', 'dataset-before', 'dataset-after', 'per-var', 'per-var',
                                'per-var-value', 'dataset-then-var-nofill', 'dataset-off'])
         if fillmode in ('dataset-before', 'dataset-then-var-nofill'):
@@ -354,6 +398,7 @@ def gen_scenario(rng, nprocs, idx, tier):
             sc.kinds.add('delta-' + dl)
         if not deltas:
             sc.kinds.add('delta-none')
+        sc.op('snap', 'snap', 'define-op:end of the define-mode calls of this redefinition')
         if aborting:
             sp.vars = sp.vars[:nold]; sp.nofill = sp.nofill[:nold]
             sc.op('abort', 'ok')
@@ -673,6 +718,14 @@ def run_check(tier, seed):
             if redef_first and not indef and not isnew and r != 'kept %d 0' % (1 if (indep and not ro and nrv) else 0):
                 tie_problems.append('model abort after redef writes: %s -> %s' % (l, r))
 
+        # metaOpDisk: in define mode no metadata call writes; copy_att into a data-mode file writes whatever the source mode
+        do_lines = ['DO %d %d %d' % (a, o, s) for a in (0, 1) for o in range(10) for s in (0, 1)]
+        for l, r in zip(do_lines, run_driver(do_lines)):
+            a, o, s = map(int, l.split()[1:])
+            want = 'unchanged' if (a or o not in (2, 4, 5, 6, 9)) else 'header-written'
+            if r.strip() != want:
+                tie_problems.append('model metaOpDisk: %s -> %s, expected %s' % (l, r, want))
+
         # ---- API stream
         t2 = Timer()
         ranks_api = [1, 2, 3, 4] if tier == 'quick' else [1, 2, 3, 4, 5, 7, 8]
@@ -682,6 +735,7 @@ def run_check(tier, seed):
         layout_bad = []
         fill_bad = []
         fill_segs = 0
+        define_snaps = 0
         for np_ in ranks_api:
             scen = [gen_scenario(rng, np_, api_scen + i, tier) for i in range(per_rank)]
             api_scen += len(scen)
@@ -704,6 +758,9 @@ def run_check(tier, seed):
                 fails, eds, moved, lbad, fbad, stats = evaluate(sc, sp, res, np_)
                 fill_bad += fbad
                 for st in stats:
+                    if 'define_snapshots' in st:
+                        define_snaps += st['define_snapshots']
+                        continue
                     bump('api:existing-records=%d' % min(st['existing_records'], 6))
                     if st['new_rec_fill']:
                         bump('api:redef-adds-FILL-record-var')
@@ -770,6 +827,7 @@ def run_check(tier, seed):
         V.cov['mpi_read_mode_observed_on_short_files'] = dict(MATCH_MODE)
         V.cov['enddef_replays'] = len(ed_lines)
         V.cov['real_fill_segments_checked'] = fill_segs
+        V.cov['define_mode_snapshots_compared'] = define_snaps
 
         # ---- S5 decide
         new_fail = 0
@@ -843,6 +901,8 @@ def evaluate(sc, sp, resall, np_):
     last_new = None
     plan_ans = None
     stats = []
+    tsnap_before = None
+    nsnap_def = [0]
     for (li, kind, payload) in sc.expect:
         ans = res.get(li + 1)
         opname = sc.ops[li].split()[0]
@@ -861,6 +921,19 @@ def evaluate(sc, sp, resall, np_):
                 break
         elif kind == 'plan':
             plan_ans = (payload, [r_.get(li + 1) for r_ in resall])
+        elif kind == 'tsnap':
+            if payload == 'rev-before':
+                tsnap_before = t[1]
+            else:
+                if t[1] == tsnap_before:
+                    fails.append(('copy_att-data-mode-header-not-written',
+                                  'ncmpi_copy_att into a file in data mode did not write that file\'s header to disk', rep))
+        elif kind == 'tgetatt':
+            n = payload
+            want = ''.join(chr(ord('A') + (i % 26)) for i in range(n))
+            if t[1] != '0' or t[2] != str(n) or (t[3] if len(t) > 3 else '') != want:
+                fails.append(('copy_att-data-mode-not-on-disk',
+                              'attribute copied into a file in data mode reads back as %s after reopening, expected %d bytes %s' % (' '.join(t[1:4])[:80], n, want), rep))
         elif kind == 'exists':
             if int(t[1]) != payload:
                 if payload == 0:
@@ -923,6 +996,15 @@ def evaluate(sc, sp, resall, np_):
         elif kind == 'snap':
             if payload == 'before':
                 snap_before = t[1]
+            elif payload.startswith('define-op:'):
+                nsnap_def[0] += 1
+                if snap_before is not None and t[1] != snap_before:
+                    a, b = hexbytes(snap_before), hexbytes(t[1])
+                    d = next((i for i in range(min(len(a), len(b))) if a[i] != b[i]), min(len(a), len(b)))
+                    fails.append(('define-mode-op-wrote-file',
+                                  'the file changed on disk (first difference at byte %d, lengths %d/%d) while it was in define mode after ncmpi_redef: %s'
+                                  % (d, len(a), len(b), payload[10:]), rep))
+                    snap_before = t[1] if False else snap_before
             elif payload == 'after-abort':
                 if t[1] != snap_before:
                     a, b = hexbytes(snap_before), hexbytes(t[1])
@@ -972,6 +1054,8 @@ def evaluate(sc, sp, resall, np_):
                         bad_here = True; break
                 if bad_here:
                     break
+    if nsnap_def[0]:
+        stats.append(dict(define_snapshots=nsnap_def[0]))
     return fails, eds, moved, lbad, fillbad, stats
 
 
